@@ -1,1 +1,15 @@
-// harnesses for alloc (included into loom under cfg(loom_verif))
+// crate::rt::alloc::verif -- C10: allocation tracking state.
+#![allow(dead_code, unused_imports)]
+
+use super::*;
+use crate::rt::verif::vharness;
+#[cfg(not(kani))]
+use crate::rt::verif::kani_shim as kani;
+
+pub(crate) fn mk(is_dropped: bool) -> State {
+    State { is_dropped, allocated: Location::disabled() }
+}
+
+pub(crate) fn is_dropped(s: &State) -> bool {
+    s.is_dropped
+}
